@@ -468,6 +468,16 @@ def _abstractmethod(it, fr, a, k):
     return a[0]
 
 
+def _weakref_ref(it, fr, a, k):
+    o = it.alloc(it.ext("weakref"), {"referent": a[0], "callback": a[1] if len(a) > 1 else None, "alive": True}, tag="weakref")
+    it.ctx.effect("weakref", a[0])
+    return o
+
+
+BUILTINS["weakref.ref"] = Builtin("weakref.ref", _weakref_ref)
+BUILTINS["_weakref.ref"] = BUILTINS["weakref.ref"]
+
+
 # ------------------------------------------------------------------ methods of builtin containers
 def method_of(it, v, name):
     table = None
